@@ -198,7 +198,8 @@ let sais_case f =
   match sigma_construct text with
   | Ok sg ->
       (match translate_text sg text with
-       | Ok s -> "sa=" ^ show_nats (suffix_array s)
+       | Ok s -> let sa = suffix_array s in
+                 "sa=" ^ show_nats sa ^ " psi=" ^ show_nats (psi_of sa (inverse sa))
        | _ -> "SE")
   | _ -> "CE"
 
